@@ -97,6 +97,10 @@ def identities(ctx, obj, T, units, label, elemental):
                          % (label, T, u, S, Sf, G, Gf))
             Se = quiet(obj.get_S, T, u, S_elements=True)
             Ge = quiet(obj.get_G, T, hu, S_elements=True)
+            # the flag given by position (third argument) is the same request
+            Sp, Gp = quiet(obj.get_S, T, u, True), quiet(obj.get_G, T, hu, True)
+            if Sp != Se or Gp != Ge:
+                ctx.fail('elemental-flag-by-position-differs', '[%s] get_S(%r, %r, True) = %r but with S_elements=True %r; get_G %r vs %r' % (label, T, u, Sp, Se, Gp, Ge))
             if not close(Se, (SoR - elemental) * R, 1e-11):
                 ctx.fail('elemental-S-dimensional', '[%s] get_S(%r, %r, True) = %r, expected %r' % (label, T, u, Se, (SoR - elemental) * R))
             if abs(Ge - (H - T * Se)) > 1e-11 * (abs(H) + abs(T * Se)):
@@ -114,6 +118,37 @@ def identities(ctx, obj, T, units, label, elemental):
 def molgen_fused(smi):
     from vlib import molgen
     return molgen.has_fused_aromatic(smi)        # (Mol objects of fused aromatics decompose differently: known finding of C03)
+
+
+def array_identities(ctx, obj, Ts, units, label):
+    """Cp for an ARRAY of temperatures in several units one after the other, the same array object every time, with non-dimensional
+    requests in between: every answer is (Cp/R at each temperature) * R(u)"""
+    import numpy as np
+    c = consts()
+    try:
+        ref = [quiet(obj.get_CpoR, float(T)) for T in Ts]
+    except Exception:
+        return
+    arr = np.array([float(T) for T in Ts])
+    for rep, u in enumerate(list(units) + list(units)[:2]):
+        R = c['R'](u)
+        try:
+            got = quiet(obj.get_Cp, arr, u)
+            nd = quiet(obj.get_CpoR, arr)
+        except Exception as e:
+            ctx.fail('Cp-array-raises:%s' % type(e).__name__, '[%s] get_Cp(array, %r) raised %s: %s' % (label, u, type(e).__name__, str(e)[:120]))
+            return
+        ctx.count()
+        ctx.event('array-temperatures')
+        if np.ndim(got) == 0 and all(r == 0 for r in ref):
+            return                      # an estimate without constituents: the empty sum is the number 0
+        got, nd = np.atleast_1d(got), np.atleast_1d(nd)
+        if len(got) != len(ref) or any(not close(float(g), r * R, 1e-11) and abs(float(g) - r * R) > 1e-300 for g, r in zip(got, ref)):
+            ctx.fail('Cp-array-not-CpoR*R', '[%s] request %d: get_Cp(%r, %r) = %r, Cp/R*R = %r' % (label, rep + 1, list(arr), u, list(got), [r * R for r in ref]))
+            return
+        if any(not close(float(g), r, 1e-11) and abs(float(g) - r) > 1e-300 for g, r in zip(nd, ref)):
+            ctx.fail('CpoR-array-changed-by-dimensional-request', '[%s] after %d dimensional requests get_CpoR(%r) = %r, scalar requests give %r' % (label, rep + 1, list(arr), list(nd), ref))
+            return
 
 
 def formula_counts(smi):
@@ -175,6 +210,7 @@ def check_estimate(ctx, case):
     ctx.event('family:%s' % ('adsorbate' if ('Pt' in smi or 'Ru' in smi) else 'radical' if re.search(r'\[(CH?\d?|O|OH)\]', smi) else 'gas'))
     ctx.event('library:%s' % L)
     label = '%s %s' % (L, smi)
+    array_identities(ctx, est, Ts, case['units'], label)
     for T in Ts:
         identities(ctx, est, T, case['units'], label, elemental)
         if elemental is not None:
@@ -256,6 +292,8 @@ def check_group(ctx, case):
     units = consts()['units']
     k = sum(map(ord, case['group'])) % len(units)
     sel = [units[k], units[(k + 5) % len(units)], 'J/mol/K']
+    if g.ND_Cp_data:
+        array_identities(ctx, g, [float(rng[0]), 0.5 * (float(rng[0]) + float(rng[1])), float(rng[1])], sel, '%s group %s' % (case['lib'], case['group']))
     for T in (float(rng[0]), 0.5 * (float(rng[0]) + float(rng[1]))):
         try:
             identities(ctx, g, T, sel, '%s group %s' % (case['lib'], case['group']), None)
